@@ -304,6 +304,17 @@ def _content_script(api, P, a, b, n, space_kind):
     api.check(P + "/sampling_policy", b.sampling_policy == a.sampling_policy)
     api.check(P + "/init_state_processing", b.init_state_processing == a.init_state_processing)
     api.check(P + "/rng_seed", b.rng_seed == a.rng_seed)
+    if api.mode == "conc":
+        # the text of a number is exact (shortest round-trip representation): same units => bit-identical values
+        for nm in ("time_step", "t_max", "sampling_interval"):
+            x, y = getattr(a, nm), getattr(b, nm)
+            if str(x.units) == str(y.units):
+                api.check(P + "/%s: exact value" % nm, float(x.value) == float(y.value), "%r became %r" % (x.value, y.value))
+        for k, (x, y) in enumerate(zip(a.system.network.species, b.system.network.species)):
+            if not isinstance(x.D, dict) and str(x.D.units) == str(y.D.units):
+                api.check(P + "/species%d.D: exact value" % k, float(x.D.value) == float(y.D.value), "%r became %r" % (x.D.value, y.D.value))
+        if hasattr(a.system.space, "cell_vol") and str(a.system.space.cell_vol.units) == str(b.system.space.cell_vol.units):
+            api.check(P + "/cell_volume: exact value", float(a.system.space.cell_vol.value) == float(b.system.space.cell_vol.value))
 
 
 def json_case(space_kind):
@@ -391,6 +402,29 @@ def files_case(space_kind):
             api.check(P + "/multi-file-layout-with-relative-paths-ok", b.ok, "raised %r" % (b.exc,))
             if b.ok:
                 _content_script(api, P + "/multi-file", script, b.value, info["n"], space_kind)
+            # (3) hand-written layout: bare numbers, the nested network file states no units and inherits the system's
+            os.chdir(cwd)
+            us = M.mk_system(api, "hand")
+            v = api.real("hv", positive=True)
+            hand = os.path.join(td, "hand")
+            os.makedirs(os.path.join(hand, "net"))
+            with open(os.path.join(hand, "net", "network.json"), "w", encoding="utf-8") as f:
+                json.dump({"species": [{"label": "A", "density": v, "D": v}], "reactions": [{"eq": "A -> ", "k+": v}]}, f)
+            with open(os.path.join(hand, "system.json"), "w", encoding="utf-8") as f:
+                json.dump({"units": {"space": us["space"], "time": us["time"], "quantity": us["quantity"]},
+                           "network": "net/network.json", "space": {"w": 1, "cell_volume": v}}, f)
+            os.chdir(td)
+            h = api.call(lambda: R.load_rdsystem(os.path.join(hand, "system.json")))
+            os.chdir(cwd)
+            api.check(P + "/hand-written-layout-ok", h.ok, "raised %r" % (h.exc,))
+            if h.ok:
+                hs = h.value
+                api.check(P + "/nested-network-file-inherits-the-system-units/density",
+                          api.eq(Q.si(api, hs.network.species[0].density), M.si_number(api, v, us, M.dims_of("density"))))
+                api.check(P + "/nested-network-file-inherits-the-system-units/D",
+                          api.eq(Q.si(api, hs.network.species[0].D), M.si_number(api, v, us, M.dims_of("D"))))
+                api.check(P + "/nested-network-file-inherits-the-system-units/cell_volume",
+                          api.eq(Q.si(api, hs.space.cell_vol), M.si_number(api, v, us, M.dims_of("volume"))))
         finally:
             os.chdir(cwd)
             shutil.rmtree(td, ignore_errors=True)
